@@ -370,6 +370,8 @@ def api_cases(draw):
         "twin": draw(st.booleans()),
         "W0": draw(st.integers(1, 10)), "H0": draw(st.integers(1, 6)), "size_first": draw(st.booleans()),
         "frames": draw(st.integers(2, 4)), "advance": draw(st.integers(0, 5)),
+        # iterators: once set up, a set_padding() with a relative padding whose resolution fails is attempted
+        "rejected_set": draw(st.booleans()),
     }
     if draw(st.booleans()):
         c["pad"] = ["aligned", draw(st.integers(-6, 30)), draw(st.integers(-6, 16)), draw(st.integers(0, 2)), draw(st.integers(0, 2))]
@@ -431,6 +433,22 @@ def check_api(c, rec):
                 it = RenderIterator(r, None, first, loops=2, cache=c["advance"] % 2 == 0)
                 next(it)
                 it.set_padding(padding)
+            if c.get("rejected_set"):
+                class _Rejected(Exception):
+                    pass
+
+                class BadResolve(P.AlignedPadding):
+                    def resolve(self, terminal_size):
+                        raise _Rejected("cannot be resolved")
+
+                try:
+                    it.set_padding(BadResolve(-1, 0, fill="!"))
+                except _Rejected:
+                    rec.label("rejected_set_padding")
+                else:
+                    raise Violation(f"{what}: set_padding() with a relative padding whose resolve() raises did not raise",
+                                    {"clause": "rejected_set", "api": api})
+                what += " [after a rejected set_padding()]"
             frame = None
             for _ in range(c["advance"] % (c["frames"] + 1) + 1):
                 frame = next(it)
